@@ -63,7 +63,7 @@ def check_case(case, want=("C01",)):
         return res
     if case["fam"] == "mux":  # multi-input PMux: Vin from the selected input, its current charged to that input only
         from ..muxsys import mux_spec
-        spec = mux_spec([tuple(x) for x in case["inputs"]], case["pal"], case["rs_list"], below="deep", pol=case["pol"], ig_table=case.get("ig_table", False))
+        spec = mux_spec([tuple(x) for x in case["inputs"]], case["pal"], case["rs_list"], below=case.get("below", "deep"), pol=case["pol"], ig_table=case.get("ig_table", False))
         before = res.stats["nontrivial_rows"]
         if case.get("remux"):
             from ..muxsys import apply_remux
@@ -78,6 +78,9 @@ def check_case(case, want=("C01",)):
                 df, _ = quiet_call(s.solve)
             except (RuntimeError, ValueError):
                 res.classes.add("raised")
+                return res
+            except Exception as e:
+                res.v(("C01.exception", type(e).__name__), "after re-adding the mux: %s" % e)
                 return res
             obs = observe(df)
             dd = _res(spec)
@@ -174,6 +177,7 @@ def gen_cases(tier, want_mirror=True):
                 yield dict(fam="mux", inputs=[list(x) for x in inputs], pal=pal, rs_list=False, pol=1, srs=0.0, n=k, ig_table=True)
                 if k == 2:
                     yield dict(fam="mux", inputs=[list(x) for x in inputs], pal=pal, rs_list=False, pol=1, srs=0.0, n=k, remux=True)
+                    yield dict(fam="mux", inputs=[list(x) for x in inputs], pal=pal, rs_list=False, pol=1, srs=0.0, n=k, remux=True, below="none")
         zero = Trees(SIG_ZERO[0], SIG_ZERO[1], max_one=("MX0",))
         for n in (1, 2, 3):
             for f in zero.iter_forests(n):
